@@ -46,6 +46,12 @@ def run(ctx):
             ctx.evaluations += 1
             ctx.distinct.add(("pair", o["x"]["a"]["op"], o["reenter"], o["stuck"]))
     for v in pverd:
+        if v["rule"] == "C16.storeLifetime":
+            # "its transport resources are released": a per-channel store registered with graphsync must be gone once the channel was cleaned up
+            o = pobs[v["case"]]
+            ctx.violation({"rule": "C09.resourcesReleased", "pair": "InReq||" + v["op"], "reenter": v["reenter"]},
+                          "C09.resourcesReleased violated: after the channel was released (%s overlapping an incoming-request hook, handler re-entry %s) its per-channel store is still "
+                          "registered with graphsync (case %s)" % (v["op"], v["reenter"], v["case"]), detail=c16.pair_detail(v, o))
         if v["rule"] == "C20.everyCallReturns" and v["op"] in ("Cleanup", "Close"):
             o = pobs[v["case"]]
             ctx.violation({"rule": "C09.releaseReturns", "pair": "InReq||" + v["op"], "reenter": v["reenter"]},
